@@ -263,6 +263,10 @@ func (p *Program) parseContractFile(file, pkgName string) error {
 					cur.calls[pm[1]] = append(cur.calls[pm[1]], &CallClause{kind: "pure", text: "pure"})
 					continue
 				}
+				if fm := regexp.MustCompile(`^recv\s+(\S+)\s+flag\s+(\w+)$`).FindStringSubmatch(s); fm != nil {
+					cur.calls["recv:"+fm[1]] = append(cur.calls["recv:"+fm[1]], &CallClause{kind: "flag", name: fm[2], text: "flag " + fm[2]})
+					continue
+				}
 				m := reCall.FindStringSubmatch("call" + strings.TrimPrefix(s, kw))
 				if m == nil {
 					return fmt.Errorf("%s:%d: bad call clause", file, l.line)
